@@ -102,6 +102,13 @@ pub fn gen_hostile_seeder(r: &mut Rng, id: [u8; 20], n: usize, incoming: bool) -
             c.serve_while_choking = r.chance(2, 3);
             for _ in 0..r.below(5) { c.late_haves.push((r.below(6), r.usize(n))); }
             c.late_haves.sort();
+            // re-sent Bitfield, pieces revealed only later by Have
+            if r.chance(1, 2) {
+                c.have = vec![true; n];
+                c.initial_advert = Some((0..n).map(|_| r.chance(1, 4)).collect());
+                for _ in 0..r.range(1, 3) { c.rebitfield_at.push(r.below(5)); }
+                c.rebitfield_at.sort();
+            }
             "flapper"
         }
         2 => {
@@ -172,9 +179,46 @@ pub fn gen_late_data_scenario(r: &mut Rng, seed: u64) -> Scenario {
     Scenario { cfg: SimCfg { torrent, peers, tracker: vec![], failpoints: None, max_virtual_ms: 60_000, stop_on_extract: true, linger_ms: 100, disk_on: disk_never, seed, tracker_fn: None, driver: None }, desc }
 }
 
+/// Targeted family: a peer that advertised a single piece re-sends its Bitfield while that piece is
+/// in flight (nothing else to ask it for) and then reveals further pieces with Have.
+pub fn gen_rebitfield_scenario(r: &mut Rng, seed: u64) -> Scenario {
+    let n = r.range(12, 16) as usize;
+    let piece_len = 16384 * r.range(2, 3) as usize + r.range(1, 1000) as usize;
+    let total = (n - 1) * piece_len + r.range(1, piece_len as u64) as usize;
+    let content = crate::torrent::distinct_content(r, total, piece_len);
+    let torrent = Rc::new(crate::torrent::Torrent::build(piece_len, "out.bin", vec![("out.bin".into(), total)], true, content, "http://sim.invalid/announce"));
+    let x = r.usize(n - 1);
+    let mut peers = vec![];
+    let mut pdesc = vec![];
+    let mut a = SeederCfg::honest(peer_id(0), vec![true; n]);
+    let mut adv = vec![false; n];
+    adv[x] = true;
+    a.initial_advert = Some(adv);
+    a.unchoke_after_ms = Some(0);
+    a.latency_ms = (50, 300);
+    a.rebitfield_at = vec![1];
+    a.late_haves = (0..r.range(1, 4)).map(|k| (1 + k, r.usize(n))).collect();
+    a.idle_close_ms = 60_000;
+    pdesc.push(json!({"addr": addr(0), "persona": "re-sends Bitfield mid-piece, then reveals pieces by Have", "advertises_first": x, "late_haves": format!("{:?}", a.late_haves)}));
+    let a2 = a.clone();
+    peers.push(PeerSpec { addr: addr(0), id: peer_id(0), entry: Entry::Dialled { from_announce: 0 }, make: Box::new(move |nth| if nth > 1 { None } else { Some(seeder(a2.clone())) }), chunk: 0, pipe: 1 << 20 });
+    let mut b = SeederCfg::honest(peer_id(1), vec![true; n]);
+    b.unchoke_after_ms = Some(r.range(0, 2000));
+    b.latency_ms = (200, 2000);
+    b.idle_close_ms = 60_000;
+    pdesc.push(json!({"addr": addr(1), "persona": "slow honest seeder"}));
+    let b2 = b.clone();
+    peers.push(PeerSpec { addr: addr(1), id: peer_id(1), entry: Entry::Dialled { from_announce: 0 }, make: Box::new(move |nth| if nth > 1 { None } else { Some(seeder(b2.clone())) }), chunk: 0, pipe: 1 << 20 });
+    let desc = json!({"seed": seed, "family": "rebitfield-then-have", "piece_length": piece_len, "pieces": n, "peers": pdesc});
+    Scenario { cfg: SimCfg { torrent, peers, tracker: vec![], failpoints: None, max_virtual_ms: 60_000, stop_on_extract: true, linger_ms: 100, disk_on: disk_never, seed, tracker_fn: None, driver: None }, desc }
+}
+
 pub fn gen_scenario(r: &mut Rng, seed: u64) -> Scenario {
     if r.chance(1, 8) {
         return gen_late_data_scenario(r, seed);
+    }
+    if r.chance(1, 10) {
+        return gen_rebitfield_scenario(r, seed);
     }
     let maxp = if r.chance(1, 2) { 30 } else { 9 };
     let small = r.chance(2, 3);
